@@ -393,10 +393,16 @@ func (m *MemoryBackend) Publish(client *Client, msg *packet.Message, ack Ack) er
 					return ErrQueueFull
 				}
 			} else if sess.activeClient != nil {
-				// wait for room since client is online
+				// add message if there is room, otherwise wait for room since
+				// client is online (a closing client must not cause the
+				// message to be dropped while the queue has room)
 				select {
 				case queue(sess) <- msg:
-				case <-sess.activeClient.Closing():
+				default:
+					select {
+					case queue(sess) <- msg:
+					case <-sess.activeClient.Closing():
+					}
 				}
 			} else {
 				// ignore message if offline queue is full
